@@ -99,6 +99,7 @@ def project_facts(files):
     special_params, fstring_names, comp_targets, nonproject_imports = set(), set(), set(), set()
     class_body_loads, init_params, leafs = set(), set(), {}
     class_members, base_names = {}, set()
+    ambiguous_members = set()
     for path in files:
         if path.endswith(".py") and not path.endswith("__init__.py"):
             leafs.setdefault(path.split("/")[-1], []).append(path)
@@ -140,6 +141,15 @@ def project_facts(files):
                 if n.kwarg:
                     special_params.add(n.kwarg.arg)
             if isinstance(n, ast.ClassDef):
+                # class whose body loads a name that the class itself also binds (dynamic class-body lookup)
+                own = {st.name for st in n.body if isinstance(st, (ast.FunctionDef, ast.AsyncFunctionDef, ast.ClassDef))}
+                own |= {t.id for st in n.body if not isinstance(st, (ast.FunctionDef, ast.AsyncFunctionDef, ast.ClassDef))
+                        for t in ast.walk(st) if isinstance(t, ast.Name) and isinstance(t.ctx, ast.Store)}
+                loads = {t.id for st in n.body if not isinstance(st, (ast.FunctionDef, ast.AsyncFunctionDef, ast.ClassDef))
+                         for t in ast.walk(st) if isinstance(t, ast.Name) and isinstance(t.ctx, ast.Load)}
+                if own & loads:
+                    ambiguous_members.update(own)
+                    ambiguous_members.update(t.attr for t in ast.walk(n) if isinstance(t, ast.Attribute) and isinstance(t.ctx, ast.Store))
                 mem = class_members.setdefault(n.name, set())
                 for b in n.bases:
                     base_names.add(b.id if isinstance(b, ast.Name) else getattr(b, "attr", None))
@@ -201,7 +211,8 @@ def project_facts(files):
             "special_params": special_params, "fstring_names": fstring_names, "comp_targets": comp_targets,
             "nonproject_imports": nonproject_imports, "star": star, "class_body_loads": class_body_loads,
             "init_params": init_params, "same_leaf": same_leaf, "has_prefixed_string": has_prefixed_string,
-            "inherited_members": {m for c, ms in class_members.items() if c in base_names for m in ms}}
+            "inherited_members": {m for c, ms in class_members.items() if c in base_names for m in ms},
+            "ambiguous_members": ambiguous_members}
 
 
 def stream(text):
@@ -348,6 +359,8 @@ def run_case(spec):
                 label = "spelled-like-a-constructor-parameter"
             elif tok and old in facts["inherited_members"]:
                 label = "spelled-like-a-member-of-a-class-that-has-subclasses"
+            elif tok and old in facts["ambiguous_members"]:
+                label = "member-of-a-class-whose-body-reads-a-name-it-also-binds"
             elif tok and old in facts["special_params"]:
                 label = "spelled-like-a-keyword-only-star-or-lambda-parameter"
             elif tok and old in facts["fstring_names"]:
